@@ -33,29 +33,35 @@ ASSUMPTIONS = [
 RULE = ("scripts of 4-30 operations on several live SimpleString objects (results fed back as operands) over the alphabets "
         "{a,b}, bytes>=0x80, control bytes, mixed-case ASCII, empty/one-byte strings, lengths 97..103/128/200; positions in "
         "{0,1,len-1,len,len+1,npos,random}; patterns drawn from the subject; primitives and the formatter family in their "
-        "own flavours; a malformed stream (embedded NULs, unknown/reused labels, huge positions); non-trivial = at least one "
+        "own flavours; SimpleStringCollection action lists (allocate / operator[] in and out of range / size) and operations "
+        "whose C-string operand is the object's own asCharString(); a malformed stream (embedded NULs, unknown/reused labels, huge positions); non-trivial = at least one "
         "allocating operation and one branch event of the histogram; distinct = distinct op sequences")
 
-LEVEL_TEXT = ("Machine-checked Lean 4 theorems (56, no sorry/axiom) over a bounded-buffer model of SimpleString.cpp, for ALL "
+LEVEL_TEXT = ("Machine-checked Lean 4 theorems (74, no sorry/axiom) over a bounded-buffer model of SimpleString.cpp, for ALL "
               "NUL-free byte strings, buffers, offsets, positions and counts: every C-like primitive (StrLen, StrCmp, StrNCmp, "
-              "StrNCpy, StrStr, MemCmp, AtoI, AtoU, ToLower) and every string method (constructors, =, +, +=, ==, "
-              "equalsNoCase, contains(NoCase), startsWith/endsWith, count, find/findFrom, at, subString forms, "
-              "subStringFromTill, split, replace(char), replace(string), lowerCase, printable, padStringsToSameLength, "
-              "copyToBuffer) returns the value of its textbook list definition (Spec/Text.lean, Spec/TextExt.lean), never "
-              "leaves a buffer (no Err.oob) and terminates; formatter glue (100-byte fast/slow path with exact buffer "
-              "sizes, hex pairs of StringFromBinary, StringFromMaskedBits, ordinal suffix rule); allocator pairing as an "
-              "invariant over operation sequences of any length (every buffer released exactly once with the size it was "
-              "requested with; after destroying all objects nothing is outstanding). Partial: the pairing invariant is "
-              "proved for the object-level operations incl. split and printable but not for scripts containing the "
-              "formatted-construction family (step_keeps_pairing_full stays a stated Prop); memory safety of the COMPILED "
-              "code is observed (ASan/UBSan), not proved. The model is tied to the code on every run by a differential "
-              "harness (real SimpleString objects, recording allocator and vsnprintf, std::string/libc cross-check) whose "
-              "observations are also judged by an independent specification oracle, and by constants regenerated from the source.")
+              "StrNCpy, StrStr, MemCmp, AtoI incl. a general blanks/sign/digits form, AtoU, ToLower) and every string method "
+              "(constructors, =, +, +=, ==, equalsNoCase, contains(NoCase), startsWith/endsWith, count, find/findFrom, at, "
+              "subString forms, subStringFromTill, split, replace(char) incl. a NUL replacement, replace(string), lowerCase, "
+              "printable, padStringsToSameLength, copyToBuffer) and SimpleStringCollection (allocate, operator[] in and out "
+              "of range, size) returns the value of its textbook list definition (Spec/Text.lean, Spec/TextExt.lean), never "
+              "leaves a buffer (no Err.oob) and terminates; formatter texts given the libc renderings as inputs "
+              "(100-byte fast/slow path with exact buffer sizes, HexStringFrom(signed char) two-digit cut, "
+              "BracketsFormattedHexString, pointer forms, StringFrom(bool), StringFromBinary hex pairs, "
+              "StringFromBinaryWithSize 128-byte cut + ' ...', StringFromMaskedBits, ordinal suffix rule); allocator pairing "
+              "as an invariant over operation sequences of any length and of ANY operations, formatted construction "
+              "included, whatever vsnprintf answers (step_keeps_pairing_full: every buffer released exactly once with the "
+              "size it was requested with; after destroying all objects nothing is outstanding). Not proved: memory safety "
+              "of the COMPILED code (observed under ASan/UBSan); what printf prints. The model is tied to the code on every "
+              "run by a differential harness (real SimpleString objects and collections, recording allocator and vsnprintf, "
+              "std::string/libc cross-check) whose observations are also judged by an independent specification oracle, "
+              "and by constants regenerated from the source.")
 LEVEL_NOTE = ("Trusted: Lean kernel; the hand-written model (validated against the code by this run's correspondence, event "
-              "by event); vsnprintf/libc; the compiler's temporary/elision order; the constants extractor; theorem and "
-              "Spec statements. Not carried by theorems: memory safety of the compiled code (observed under ASan/UBSan); "
-              "what printf prints; HexStringFrom/BracketsFormatted/StringFrom(pointer/double) texts (judged by the oracle "
-              "and std::string/libc on generated inputs only).")
+              "by event); vsnprintf/libc (its results are inputs; text theorems assume the libc renderings HexEnv/BinEnv/"
+              "header); the compiler's temporary/elision order; the constants extractor; theorem and Spec statements. The "
+              "model is value-based: a use of an asCharString() pointer after the object changed is not representable "
+              "(the harness exercises the own-buffer operand cases under ASan). Not carried by theorems: memory safety "
+              "of the compiled code; decimal/hex digits printed by printf (judged by the oracle and std::string/libc on "
+              "generated inputs only).")
 TECHNIQUE = "Lean 4 refinement proofs (bounded-buffer model = textbook list functions; allocator-pairing invariant) + differential correspondence harness + regenerated constants"
 
 
@@ -225,9 +231,45 @@ class Gen:
         x = rng.choice(["assign", "plus", "pluseq", "pluseqc", "eq", "ne", "eqnc", "contains", "containsnc", "starts",
                         "ends", "count", "count", "find", "findfrom", "at", "size", "isempty", "cstr", "substr", "substr",
                         "substr1", "fromtill", "lower", "printable", "split", "split", "replc", "repl", "repl", "repl",
-                        "pad", "copybuf", "copybufnull", "del", "create", "create", "selfops"])
+                        "pad", "copybuf", "copybufnull", "del", "create", "create", "selfops", "coll", "alias"])
+        if len(va) > 150 and x in ("plus", "pluseq", "pluseqc", "selfops", "alias", "pad", "repl"):
+            x = "size"          # keep strings short: the list-based model is quadratic in the length
         if x == "create":
             return self.create()
+        if x == "coll":         # SimpleStringCollection: allocate / operator[] in and out of range / size
+            acts, size = [], 0
+            for _ in range(rng.choice([2, 4, 7, 10])):
+                y = rng.random()
+                idx = rng.choice([0, 1, max(0, size - 1), size, size + 1, rng.randint(0, size + 3)])
+                if y < 0.3:
+                    size = rng.choice([0, 1, 2, 3, 5])
+                    acts.append("alloc:%d" % size)
+                elif y < 0.6:
+                    acts.append("set:%d:%s" % (idx, self.pick()))
+                    if rng.random() < 0.7:
+                        acts.append("get:%d" % idx)
+                elif y < 0.9:
+                    acts.append("get:%d" % idx)
+                else:
+                    acts.append("size")
+            self.ops.append("coll " + " ".join(acts))
+            return
+        if x == "alias":        # operands that are the object's own asCharString()
+            y = rng.choice(["selfassignc", "selfrepl", "selfreplw"])
+            if y == "selfassignc":
+                self.ops.append("selfassignc %s" % a)
+            elif y == "selfrepl":
+                v = rstr(rng, 3)
+                self.ops.append("selfrepl %s %s" % (a, hx(v)))
+                if va:
+                    V[a] = cut(v)
+            else:
+                to = pattern_for(rng, va)
+                if len(va) > 12:
+                    to = va            # at most one occurrence: the result stays as long as the string
+                self.ops.append("selfreplw %s %s" % (a, hx(to)))
+                V[a] = p_replace(va, cut(to), va)
+            return
         if x == "selfops":      # the same object on both sides
             y = rng.choice(["assign", "pluseq", "eq", "contains", "count", "pad", "plus", "split", "starts", "ends", "eqnc"])
             if y == "assign":
@@ -545,6 +587,8 @@ def _branches(r):
             ev.append("find.%s" % ("npos" if w[1] == "npos" else "hit"))
         elif op == "substr" and w[0] == "val":
             ev.append("substr.%s" % ("empty" if w[1] == "-" else "nonempty"))
+        elif op == "coll" and w[0] == "cval":
+            ev.append("coll.get_%s" % ("empty" if w[1] == "-" else "value"))
         elif op == "strstr" and w[0] == "ret":
             ev.append("strstr.%s" % ("null" if w[1] == "null" else "hit"))
         elif op in ("strcmp", "strncmp", "memcmp") and w[0] == "ret":
